@@ -765,9 +765,14 @@ struct PartB {
     }
 };
 
+static int Run();
 int main(int argc, char** argv)
 {
     vx::init(argc, argv, "C17", "fault_enumeration");
+    return fp::guarded(Run, "C17 main process (node setup / read-level enumeration)");
+}
+static int Run()
+{
     setenv("RANDOM_CTX_SEED", "c17c17c17c17", 1);
     auto& E = vx::ev();
     const bool big = vx::thorough();
